@@ -49,7 +49,7 @@ TMove ==
   /\ CASE Ev.role = "S" -> /\ spc = Ev.from /\ SenderNext /\ spc' = Ev.to
                            /\ ("errc" \in DOMAIN Ev => rerr'["S"] = Ev.errc)
        [] Ev.role = "R" -> /\ rpc = Ev.from
-                           /\ IF "timeout" \in DOMAIN Ev THEN R_Timeout ELSE (R_Begin \/ R_Resume \/ R_Info \/ R_Exit)
+                           /\ IF "timeout" \in DOMAIN Ev THEN R_Timeout ELSE (R_Begin \/ R_Resume \/ R_Info \/ R_Done \/ R_Exit)
                            /\ rpc' = Ev.to
                            /\ ("errc" \in DOMAIN Ev => rerr'["R"] = Ev.errc)
        [] Ev.role = "W" -> /\ wpc = (IF Ev.from = "wake" THEN "wait" ELSE Ev.from) /\ WatchNext /\ wpc' = Ev.to
